@@ -4,6 +4,7 @@ import (
 	"fmt"
 	"go/token"
 	"go/types"
+	"strings"
 
 	"golang.org/x/tools/go/ssa"
 )
@@ -231,7 +232,7 @@ func runC04(r *Run) {
 	cm.Done()
 
 	// ---- flow
-	fw := r.Rule("C04.flow", "newHMAC(key, message, buf) = AcquireSHA1(key); Write(message); Sum(buf); Put after the last use; AddTo and Check pass the receiver as key; AddTo hashes the whole Raw after rewriting the header length", 4)
+	fw := r.Rule("C04.flow", "newHMAC(key, message, buf) = AcquireSHA1(key); Write(message); Sum(buf); Put after the last use; AddTo and Check pass the receiver as key; AddTo hashes exactly Raw[:20+Length(on entry)] after rewriting the header length", 4)
 	checkNewHMAC(r, fw, newHMAC)
 	for _, fn := range []*ssa.Function{addTo, check} {
 		eachInstr(fn, func(b *ssa.BasicBlock, i int, in ssa.Instruction) {
@@ -241,8 +242,8 @@ func runC04(r *Run) {
 					fw.Violation(fn, instrPos(c), "HMAC key "+exprDepth(c.Call.Args[0], 0), "the HMAC key is not the integrity credential (the receiver)")
 				}
 				if fn == addTo {
-					if !valueIsLoadOfField(c.Call.Args[1], rawF) {
-						fw.Violation(fn, instrPos(c), "HMAC input "+exprDepth(c.Call.Args[1], 0), "AddTo must authenticate the whole message up to the attribute being added")
+					if !isMessageSpan(newLinEval(p), c.Call.Args[1], rawF, lenF) {
+						fw.Violation(fn, instrPos(c), "HMAC input "+exprDepth(c.Call.Args[1], 0), "AddTo must authenticate exactly the message up to the attribute being added, Raw[:20+Length] with the Length the message had on entry: Raw as a whole may hold bytes that follow the message (Decode keeps them), and a MAC over them does not verify")
 					}
 					okOrder := false
 					eachInstr(fn, func(bb *ssa.BasicBlock, j int, x ssa.Instruction) {
@@ -800,8 +801,8 @@ func runC05(r *Run) {
 			if !(instrDominates(adj, wlc) && instrDominates(wlc, fvc)) {
 				ad.Violation(addTo, instrPos(fvc), "order", "the CRC is computed before the header carries the final length")
 			}
-			if !valueIsLoadOfField(fvc.Call.Args[0], rawF) {
-				ad.Violation(addTo, instrPos(fvc), "CRC input "+exprDepth(fvc.Call.Args[0], 0), "the CRC must cover all bytes preceding the attribute (the whole Raw at this point)")
+			if !isMessageSpan(le, fvc.Call.Args[0], rawF, lenF) {
+				ad.Violation(addTo, instrPos(fvc), "CRC input "+exprDepth(fvc.Call.Args[0], 0), "the CRC must cover exactly the bytes preceding the attribute, Raw[:20+Length] with the Length the message had on entry: Raw as a whole may hold bytes that follow the message (Decode keeps them)")
 			}
 			ad.Instance("Add", true, nil)
 			if t, ok := constInt(addc.Call.Args[1]); !ok || t != attrFingerprint {
@@ -1092,4 +1093,25 @@ func accumulatesAfterFirstMAC(fn *ssa.Function, acc *ssa.Phi) (bool, string) {
 		return false, "the search loop does not stop exactly at the first attribute of type 0x0008 (or at the end of the list)"
 	}
 	return true, ""
+}
+
+// isMessageSpan: v is Raw[:20+L] (or Raw[0:20+L]) where L is the value the Length field had when the
+// function was entered - the declared message, whatever else the buffer holds behind it.
+func isMessageSpan(le *linEval, v ssa.Value, rawF, lenF *types.Var) bool {
+	root, lo, hi := le.window(v)
+	if !valueIsLoadOfField(root, rawF) || hi == nil {
+		return false
+	}
+	if c, ok := lo.isConst(); !ok || c != 0 {
+		return false
+	}
+	if hi.C != 20 || len(hi.Terms) != 1 {
+		return false
+	}
+	for k, coef := range hi.Terms {
+		if coef != 1 || !strings.HasPrefix(k, "in:") || !strings.HasSuffix(k, "."+lenF.Name()) {
+			return false
+		}
+	}
+	return true
 }
